@@ -187,6 +187,16 @@ pub fn run(ctx: &Arc<Ctx>) {
                         *b ^= 0xff;
                     }
                     cases.push(mk(f, None, "C3-every-byte-inverted"));
+                    // a C3 that differs but prints the same as unpadded hex / decimal text: bytes 0X,YZ rewritten XY,0Z
+                    for i in 0..31 {
+                        let (a, b) = (ct[c3_at + i], ct[c3_at + i + 1]);
+                        if a != 0 && a < 0x10 && b >= 0x10 {
+                            let mut f = ct.clone();
+                            f[c3_at + i] = (a << 4) | (b >> 4);
+                            f[c3_at + i + 1] = b & 0x0f;
+                            cases.push(mk(f, None, "C3-same-unpadded-hex-text"));
+                        }
+                    }
                 }
                 // appended byte
                 let mut ext = ct.clone();
